@@ -32,7 +32,7 @@ type c12Case struct {
 	Nonce      string `json:"nonce"`
 	DelaySec   int64  `json:"delay_sec"` // the code was issued this long ago (<= 290)
 	TokClient  string `json:"tok_client"`
-	Secret     string `json:"secret"`    // right | wrong | absent | other | empty
+	Secret     string `json:"secret"`    // right | wrong | absent | other | empty | space | tab-nl | padded | prefix | case
 	Verifier   string `json:"verifier"`  // right | wrong | absent | challenge-itself
 	CredsIn    string `json:"creds_in"`  // header | form | header-escaped | header+form-id-of-code-client
 	Redirect   string `json:"redirect"`  // same | different | case | trailing
@@ -80,7 +80,7 @@ func c12Gen(t *rapid.T) c12Case {
 		case 0:
 			c.TokClient = rapid.SampledFrom([]string{"A", "B", "P", "Q", "unknown"}).Draw(t, "tokClient")
 		case 1:
-			c.Secret = rapid.SampledFrom([]string{"right", "wrong", "absent", "other", "empty"}).Draw(t, "secret")
+			c.Secret = rapid.SampledFrom([]string{"right", "wrong", "absent", "other", "empty", "space", "tab-nl", "padded", "prefix", "case"}).Draw(t, "secret")
 		case 2:
 			c.Verifier = rapid.SampledFrom([]string{"right", "wrong", "absent", "challenge-itself"}).Draw(t, "verifier")
 		case 3:
@@ -257,6 +257,24 @@ func c12Check(c c12Case) *vResult {
 		}
 	case "empty", "absent":
 		secret = ""
+	// near misses of the configured secret (for a secret-less client: of the
+	// empty string): none of them is the secret
+	case "space":
+		secret = " "
+	case "tab-nl":
+		secret = "\t\n"
+	case "padded":
+		secret = " " + tokSecretCfg + "\n"
+	case "prefix":
+		secret = "x"
+		if len(tokSecretCfg) > 1 {
+			secret = tokSecretCfg[:len(tokSecretCfg)-1]
+		}
+	case "case":
+		secret = strings.ToUpper(tokSecretCfg) + strings.ToLower(tokSecretCfg)
+		if secret == tokSecretCfg+tokSecretCfg {
+			secret = "X"
+		}
 	}
 	switch c.Verifier {
 	case "right":
@@ -449,6 +467,6 @@ func c12Redeem(w *vWorld, client, code, redirect string) (string, string) {
 
 func TestVerifC12Tokens(t *testing.T) {
 	vRunRapid(t,
-		"rapid: the valid combination with 0-3 perturbed axes over (token-endpoint client A/B/P/Q/unknown, secret right/wrong/absent/other/empty, verifier right/wrong/absent/challenge-itself, redirect same/different/case/trailing, code fresh/expired/tampered/re-signed/access-token/id-token/session-cookie/other client's code) x authorize-side (user, client incl. two secret-less ones, challenge none/S256/plain implicit/plain explicit/unknown, nonce, issued 0-290 s ago) x credentials in header / form / escaped header x RSA/ECDSA signer; non-trivial = at most one conjunct of the statement false; distinct = the truth vector with all case axes",
+		"rapid: the valid combination with 0-3 perturbed axes over (token-endpoint client A/B/P/Q/unknown, secret right/wrong/absent/other/empty/whitespace-only/right one padded with whitespace/right one truncated/case-changed, verifier right/wrong/absent/challenge-itself, redirect same/different/case/trailing, code fresh/expired/tampered/re-signed/access-token/id-token/session-cookie/other client's code) x authorize-side (user, client incl. two secret-less ones, challenge none/S256/plain implicit/plain explicit/unknown, nonce, issued 0-290 s ago) x credentials in header / form / escaped header x RSA/ECDSA signer; non-trivial = at most one conjunct of the statement false; distinct = the truth vector with all case axes",
 		c12Gen, c12Check)
 }
